@@ -234,10 +234,12 @@ CHECKS = {
               'single-fault mutations of valid documents run through load/add/is_lmf/scan_lexicons and judged by TLC (Judge_C20)',
     text='Accepts(version, mutation) is an explicit TLA+ predicate checked for totality and consistency by TLC over the whole mutation '
          'alphabet. Valid generated documents of every version are mutated one fault at a time (attribute removed, element renamed or of a '
-         'later version, child duplicated, end tag removed/mismatched, truncation, header faults, quoting/order changes); TLC checks that '
+         'later version, child duplicated, end tag removed/mismatched, truncation, header faults, quoting/order changes, comments, '
+         'character references in identifying attributes, the document as dump() itself writes it); TLC checks that '
          'load() raises exactly for rejected documents, neutral mutations load identically, add() raises and leaves the raw database '
          'unchanged, is_lmf() agrees with the header rule, and scan_lexicons() equals the lexicons of the full load in order.',
-    note='Trusted: TLC, the mutation generator (line-based on the materialiser output), expat for well-formedness in general.',
+    note='Trusted: TLC, the mutation generator (line-based on the materialiser output), expat for well-formedness in general. '
+         'One listed known finding (add() returns at "nothing to do" without parsing a malformed file whose scanned lexicons are all skipped).',
     design='DESIGN.md section 4 C20'),
  'C16': dict(
     engine='functional',
